@@ -37,6 +37,12 @@ PATCHES = {
     "call_ext": [["call", "ext"], ["p", 0]],
     "call_plt": [["callplt", "ext"], ["p", 0]],
     "own_label": [["lab", ".Lx"], ["p", 0], ["jcc", ".Lx"], ["lea", ".Lx"]],
+    # a pc-relative operand that is not the last field of its instruction (an immediate follows it)
+    "cmp_mem": [["cmpm", "DD"], ["p", 0], ["cmpm", "C", 2]],
+    # patches that arrive as several blocks: what is behind the insertion point is re-joined onto a *patch* block
+    "multi_jcc": [["p", 0], ["jcc", "C"], ["p", 0]],
+    "multi_call": [["call", "C"], ["p", 0]],
+    "multi_label": [["p", 0], ["lab", ".Ly"], ["p", 0], ["jcc", ".Ly"], ["p", 0]],
 }
 DPATCHES = {"bytes": {"bytes": [0, 0]}}
 
@@ -119,7 +125,7 @@ def atoms_for(spec, rich):
             if b["k"] == "c" and arm:
                 pl = list(ARM_PATCHES.values())
             elif b["k"] == "c":
-                pl = list(PATCHES.values()) if rich else [PATCHES["ord"], PATCHES["lea_data"]]
+                pl = list(PATCHES.values()) if rich else [PATCHES["ord"], PATCHES["lea_data"], PATCHES["multi_jcc"], PATCHES["multi_call"]]
             else:
                 pl = [DPATCHES["bytes"]]
             for k in range(n + 1):
